@@ -334,6 +334,9 @@ def check_props(ctx, propfile=None):
                     ax.append(m.group(1))
                 elif ln.startswith(' ') or ln.startswith('\t'):
                     continue            # continuation line of a type
+                elif re.fullmatch(r"[A-Za-z_][A-Za-z0-9_\.']*", ln.strip()):
+                    # long axiom name alone on its line, `  : type` wrapped onto the next line
+                    ax.append(ln.strip())
                 else:
                     # e.g. "f is assumed to be guarded." / "T relies on an unsafe hierarchy." / a Theory: paragraph
                     ax.append('<unsafe: ' + ln.strip()[:80] + '>')
